@@ -227,6 +227,23 @@ def classify(fail, cfg, auto):
     return '%s:%s:%s' % (stage, section, c)
 
 
+def oracle_witnesses(ctx):
+    """the minimal inputs of the recorded findings (and of the repaired defects): deterministic, run first"""
+    n = 0
+    for name, spec in gen.witness_specs():
+        try: fails = orc.run_spec(spec)
+        except orc.OutOfDomain: continue
+        n += 1
+        ctx.count(('witness', name))
+        auto = bool(spec['simulator'])
+        for f in fails:
+            key = classify(f, spec['config'], auto)
+            if name == 'echo-double-rounding' and f[0] == 'rewrite' and f[1] == 'dat' and 'ECHO-LOST' not in f[2]:
+                key = 'write:echoed-copy-double-rounding'
+            ctx.failure('oracle-witnesses', key, {'spec': spec}, '%s %s: %s' % f, 'the round trip statement of C01')
+    ctx.oracle_cases('oracle-witnesses', n)
+
+
 def oracle_shard(args):
     seed, n, repo = args
     sys.path.insert(0, repo)
@@ -310,6 +327,7 @@ def run(ctx):
             traceback.print_exc()
             ctx.proof_failures.append({'kind': 'harness', 'name': 'correspondence-crashed', 'detail': traceback.format_exc()[-2000:]})
     ctx.log('correspondence done')
+    oracle_witnesses(ctx)
     oracle(ctx, 40000 if ctx.thorough else 2400)
     ctx.log('oracle (generated) done')
     oracle_files(ctx)
